@@ -66,6 +66,12 @@ func Round(x float64, prec jtypes.OptionalInt) float64 {
 	if math.IsInf(intermed, 0) {
 		return x
 	}
+	if math.Abs(intermed) >= 1<<52 {
+		// Numbers of this size are integers: the conversion
+		// in multByPow10 has already rounded off any further
+		// digits. (Adding 0.5 below would not be exact.)
+		return multByPow10(intermed, -prec.Int)
+	}
 	if isHalfway(intermed) {
 		correction, _ := math.Modf(math.Mod(intermed, 2))
 		intermed += correction
